@@ -16,7 +16,7 @@
 // Options (all optional; a case is a pure function of --seed, the case index and these):
 //   --max_nodes=N   budget of sample points per file (l_min is raised to meet it)      --cpu_limit=S  per-case CPU limit
 //   --c1= --c2= --c3=  override the frozen faithfulness constants (calibration: 1e9)    --dump_obs=1   emit every case line
-//   --mode=0..4 (tri_on, tri_off_triangulated, tri_off_polygonal, tri_off_not_a_cell, tri_on_not_a_cell)  --bad_kind=0..5
+//   --mode=0..4 (tri_on, tri_off_triangulated, tri_off_polygonal, tri_off_not_a_cell, tri_on_not_a_cell)  --bad_kind=0..6
 //   --family=0..6  --ncell=K  --rho=R (l_min/size)  --flip_p=P  --rng_salt=K (other sampling outcomes on the same input)
 //   --keep_files=1 (keep the generated .vtk in the working directory)  --no_cloud=1 (skip the point-cloud check)
 #include "vh.hpp"
@@ -196,7 +196,7 @@ static Poly make_family(int fam, Rng& g) {
 }
 
 // closed or open surfaces that are NOT admissible cells (triangulated); `kind` selects the defect
-static const char* BAD_KINDS[] = {"torus", "open_box", "pinched_double_pyramid", "two_components", "duplicated_face", "torus_and_sphere"};
+static const char* BAD_KINDS[] = {"torus", "open_box", "pinched_double_pyramid", "two_components", "duplicated_face", "torus_and_sphere", "torus_with_bodies_touching_in_single_nodes"};
 static Poly torus_poly(int nu, int nv, double Rr, double r) {
     Poly m; for (int i = 0; i < nu; i++) for (int j = 0; j < nv; j++) { double a = 2 * M_PI * i / nu, b = 2 * M_PI * j / nv; m.P.push_back({(Rr + r * std::cos(b)) * std::cos(a), (Rr + r * std::cos(b)) * std::sin(a), r * std::sin(b)}); }
     auto id = [&](int i, int j) -> unsigned { return (unsigned)(((i % nu + nu) % nu) * nv + ((j % nv + nv) % nv)); };
@@ -214,10 +214,23 @@ static Poly make_bad(int kind, Rng& g) {
             tri(1, 3, 2); tri(1, 4, 3); tri(5, 6, 7); tri(5, 7, 8); break; }
         case 3: { m = box_poly(1, 1, 1, 1); Poly o = g.coin(0.5) ? box_poly(1, 0.6, 0.8, 0.7) : from_trimesh(gen::icosphere(1)); ptranslate(o, 3.5, 0, 0); pappend(m, o); triangulate_faces(m, g, 1.0); break; }
         case 4: { m = g.coin(0.5) ? box_poly(1, 1, 1, 1) : from_trimesh(gen::icosphere(1)); triangulate_faces(m, g, 1.0); PFace f = m.F[g.u64() % m.F.size()]; if (g.coin(0.5)) std::reverse(f.v.begin(), f.v.end()); m.F.insert(m.F.begin() + (long)(g.u64() % m.F.size()), f); break; }
+        case 6: {   // a torus carrying two closed bodies that each share exactly ONE node with it: every edge has two faces and V - E + F = 0 + 2 + 2 - 2 = 2,
+            // yet the surface is no 2-manifold (two nodes with two face fans) and its pieces share no edge
+            const int nu = g.range(8, 12), nv = g.range(6, 8); m = torus_poly(nu, nv, 1, 0.4); const size_t nT = m.P.size();
+            for (int side = 0; side < 2; side++) {
+                const double phi = 2 * M_PI * (side == 0 ? 0 : nu / 2) / nu, d[3] = {std::cos(phi), std::sin(phi), 0};
+                size_t v = 0; double best = -1e300; for (size_t k = 0; k < nT; k++) { double x = m.P[k][0] * d[0] + m.P[k][1] * d[1]; if (x > best) { best = x; v = k; } }
+                Poly o = from_trimesh(gen::icosphere(g.range(0, 1))); pscale(o, 0.3, 0.3, 0.3); protate(o, gen::rot_random(g));
+                size_t w = 0; best = 1e300; for (size_t k = 0; k < o.P.size(); k++) { double x = o.P[k][0] * d[0] + o.P[k][1] * d[1]; if (x < best) { best = x; w = k; } }
+                ptranslate(o, m.P[v][0] - o.P[w][0], m.P[v][1] - o.P[w][1], m.P[v][2] - o.P[w][2]);
+                const bool inward = g.coin(0.5); std::vector<unsigned> map(o.P.size()); for (size_t k = 0; k < o.P.size(); k++) { if (k == w) map[k] = (unsigned)v; else { map[k] = (unsigned)m.P.size(); m.P.push_back(o.P[k]); } }
+                for (auto f : o.F) { for (auto& x : f.v) x = map[x]; if (inward) std::reverse(f.v.begin(), f.v.end()); m.F.push_back(f); }
+            }
+            break; }
         default: { m = torus_poly(g.range(8, 12), g.range(6, 8), 1, 0.4); Poly o = from_trimesh(gen::icosphere(1)); pscale(o, 0.3, 0.3, 0.3); if (g.coin(0.5)) for (auto& f : o.F) std::reverse(f.v.begin(), f.v.end());
             if (g.coin(0.5)) { Poly t = m; m = o; pappend(m, t); } else pappend(m, o); break; }
     }
-    m.family = BAD_KINDS[kind]; m.thick = kind == 0 || kind == 5 ? 0.8 : 1.2;
+    m.family = BAD_KINDS[kind]; m.thick = kind == 0 || kind == 5 || kind == 6 ? 0.8 : 1.2;
     return m;
 }
 
@@ -265,7 +278,7 @@ static std::string run_case(const Args& a, long i, const std::string& path) {
     const double max_nodes = a.getd("max_nodes", 2500);
     // ---- mode (stratified by case index so that every rejection kind occurs in every run) -------------------
     int slot = (int)(i % 25); Mode mode = slot <= 16 ? TRI_ON : slot <= 19 ? OFF_VALID : slot == 20 ? OFF_POLY : slot <= 23 ? OFF_BAD : ON_BAD;
-    int bad_kind = (int)(((i / 25) * 3 + (slot - 21)) % 6); if (mode == ON_BAD) bad_kind = (int)((i / 25) % 6);
+    int bad_kind = (int)(((i / 25) * 3 + (slot - 21)) % 7); if (mode == ON_BAD) bad_kind = (int)((i / 25) % 7);
     if (a.kv.count("mode")) mode = (Mode)a.geti("mode", 0);
     if (a.kv.count("bad_kind")) bad_kind = (int)a.geti("bad_kind", 0);
     const bool tri_on = mode == TRI_ON || mode == ON_BAD, bad = mode == OFF_BAD || mode == ON_BAD;
